@@ -64,6 +64,19 @@ static void prop_pow(pbt::Ctx& c) {
 }
 PBT_RANDOM("gtx_integer/pow", prop_pow, 400000, 20000000, "pow(int,uint) and pow(uint,uint): small bases x exponents up to 40, 0/+-1 with exponents up to 2000, bases at the overflow edge of each exponent; judged when x^y is representable; non-trivial = |x|>=2 and y>=2");
 
+// exponents of 2^31 and more with the bases 0, 1, -1 (the only ones whose power stays representable): the documented loop runs y - 1
+// times, about a second each, so the domain is four cases; the parity of y decides the sign for x = -1
+static void prop_pow_huge(pbt::Ctx& c) {
+	static const struct { int x; uint32_t y; int want; } K[4] = {{-1, 2147483648u, 1}, {-1, 2147483649u, -1}, {1, 4294967295u, 1}, {0, 3000000000u, 0}};
+	const int i = (int)c.draw(4);
+	c.logf("pow(int %d, %u)", K[i].x, K[i].y);
+	c.nontrivial();
+	volatile int xv = K[i].x; volatile uint32_t yv = K[i].y;  // run-time values: the loop is really executed
+	int got = glm::pow((int)xv, (glm::uint)yv);
+	if (got != K[i].want) c.failk(std::string("pow/int/y>=2^31/x=") + std::to_string(K[i].x), "pow(int %d, %u)=%d, expected %d", K[i].x, K[i].y, got, K[i].want);
+}
+PBT_SWEEP("gtx_integer/pow_huge_exponent", prop_pow_huge, 4, 2, 1, "pow(int, uint) for x in {-1, 1, 0} and y >= 2^31 (four cases, two of them in the quick tier, chosen by the seed); non-trivial = every case");
+
 static void judge_sqrt(pbt::Ctx& c, uint64_t x) {
 	{ uint64_t r = (uint64_t)std::sqrt((double)x); while (r * r > x) --r; while ((r + 1) * (r + 1) <= x) ++r; c.cls(r * r == x ? "perfect-square" : (r * r + 2 * r == x ? "one-below-a-square" : "between-squares")); if (x > 2147483647ULL) c.cls("above-INT_MAX(uint only)"); }
 	if (x <= 2147483647ULL) {
